@@ -477,12 +477,66 @@ def prepare(case, res):
     return P
 
 
+
+def py_spec_decisions(P):
+    """the spec decision recomputed in python: used ONLY to guide shrinking (every reported case is
+    re-evaluated by C04_Check.check_case afterwards)"""
+    res = []
+    for i in range(P.n):
+        must = False
+        got = None
+        for r, (o, m) in zip(P.case["rules"], P.outs):
+            if all((any(P.table[(f["name"], k, v)][i] for (k, v) in f["params"]) != f["not"]) for f in r["funcs"]):
+                if m is None:
+                    must = True
+                    continue
+                got = (m[0], m[1] or must)
+                break
+        res.append(got if got is not None else (P.fallback[0], P.fallback[1] or must))
+    return res
+
+
+def py_fails(P):
+    if P.skip is not None:
+        return False
+    if P.crashed or P.build_flip:
+        return True
+    return P.dec and P.dec_opt != py_spec_decisions(P)
+
+
+def py_classes(P):
+    if P.crashed:
+        return [M_CRASH]
+    ms = []
+    k = 1 if P.kind == "routing" else 0
+    st = P.stages[k] if len(P.stages) > k else None
+    if st and len(st) == len(P.outs):
+        for a, b, oa, ob, ra, rb in zip(st, st[1:], P.outs, P.outs[1:], P.res["outs"], P.res["outs"][1:]):
+            if len(a["funcs"]) == 1 and len(b["funcs"]) == 1 and a["funcs"][0]["name"] == b["funcs"][0]["name"] \
+                    and a["funcs"][0]["not"] == b["funcs"][0]["not"] and ra["print"] == rb["print"]:
+                if a["funcs"][0]["not"] and M_NEG not in ms:
+                    ms.append(M_NEG)
+                if oa[1] != ob[1] and M_OUT not in ms:
+                    ms.append(M_OUT)
+    if has_empty_expansion(P):
+        ms.append(M_EMPTY)
+    st2 = P.stages[k + 1] if len(P.stages) > k + 1 else None
+    for r in st2 or []:
+        for f in r["funcs"]:
+            pr = {}
+            for p_ in f["params"]:
+                key = p_["v"] if p_["k"] == "" else p_["k"] + ":" + p_["v"]
+                if pr.setdefault(key, (p_["k"], p_["v"])) != (p_["k"], p_["v"]) and M_DEDUP not in ms:
+                    ms.append(M_DEDUP)
+    return ms or [M_OTHER]
+
+
 def c_case(sp, P):
     case = P.case
     stages = []
     for st in P.stages:
         stages.append("None" if st is None else "(Some %s)" % clist([c_rule_go(sp, r) for r in st]))
-    atoms = [cpair(cpair(sp.s(a[0]), sp.s(a[1]), sp.s(a[2])), clist([cbool(b) for b in bits])) for a, bits in P.table.items()]
+    atoms = [cpair(cpair(sp.s(a[0]), sp.s(a[1]), sp.s(a[2])), "%d%%N" % sum(1 << i for i, b in enumerate(bits) if b)) for a, bits in P.table.items()]
     outs = []
     seen = set()
     for o, m in P.outs:
@@ -496,6 +550,100 @@ def c_case(sp, P):
             % (cbool(P.kind == "routing"), clist([c_rule_py(sp, r) for r in case["rules"]]), clist(stages), clist(atoms), clist(outs),
                P.fallback[0], cbool(P.fallback[1]), P.n, cbool(P.dec), decs(P.dec_raw), decs(P.dec_opt)))
 
+
+
+# ------------------------------------------------------------------------------------------------
+# translator: what is DATA in the source (alias table, print limit, pipeline composition) -> coq/gen
+# ------------------------------------------------------------------------------------------------
+def _go_func_body(src, header_re):
+    m = re.search(header_re, src)
+    if not m:
+        raise RuntimeError("anchor moved: " + header_re)
+    i = src.index("{", m.end() - 1)
+    depth = 0
+    for j in range(i, len(src)):
+        if src[j] == "{":
+            depth += 1
+        elif src[j] == "}":
+            depth -= 1
+            if depth == 0:
+                return src[i:j + 1]
+    raise RuntimeError("unbalanced body: " + header_re)
+
+
+def translate():
+    R = vlib.REPO
+    opt = open(os.path.join(R, "component/routing/optimizer.go")).read()
+    consts_src = open(os.path.join(R, "common/consts/routing.go")).read()
+    consts = dict(re.findall(r"(\w+)\s+(?:\w+\s+)?=\s+\"([^\"]*)\"", consts_src))
+    alias = _go_func_body(opt, r"func \(o \*AliasOptimizer\) Optimize\([^)]*\)[^{]*\{")
+    fn = [(a, consts[c]) for a, c in re.findall(r'case "(\w+)":\s*function\.Name = consts\.(\w+)', alias)]
+    m = re.search(r"if function\.Name == consts\.(\w+) \{", alias)
+    key_fn = consts[m.group(1)] if m else "?"
+    keys = []
+    for lits, c in re.findall(r'case ((?:"[^"]*"(?:,\s*)?)+):\s*param\.Key = string\(consts\.(\w+)\)', alias):
+        for lit in re.findall(r'"([^"]*)"', lits):
+            keys.append((lit, consts[c]))
+    sec = open(os.path.join(R, "pkg/config_parser/section.go")).read()
+    fstr = _go_func_body(sec, r"func \(f \*Function\) String\([^)]*\)[^{]*\{")
+    m = re.search(r"if i >= (\d+) \{\s*strParamList = append\(strParamList, \"([^\"]*)\"\)", fstr)
+    if not m:
+        raise RuntimeError("anchor moved: Function.String parameter limit")
+    limit, ell = int(m.group(1)), m.group(2)
+    pstr = _go_func_body(sec, r"func \(p \*Param\) String\([^)]*\)[^{]*\{")
+    m = re.search(r'if compact \{\s*return p\.Key \+ "([^"]*)" \+ quote\(p\.Val\)', pstr)
+    if not m or 'if p.Key == "" {\n\t\treturn quote(p.Val)' not in pstr:
+        raise RuntimeError("anchor moved: Param.String compact form")
+    sep = m.group(1)
+    merge = _go_func_body(opt, r"func \(o \*MergeAndSortRulesOptimizer\) Optimize\([^)]*\)[^{]*\{")
+    ipf = [consts[c] for c in re.findall(r"function\.Name == consts\.(\w+)", merge)]
+    margs = re.search(r"Outbound\.String\((\w+), (\w+), (\w+)\) == mergingRule\.Outbound\.String\((\w+), (\w+), (\w+)\)", merge)
+    dedup = _go_func_body(opt, r"func deduplicateParams\([^)]*\)[^{]*\{")
+    dargs = re.search(r"v\.String\((\w+), (\w+)\)", dedup)
+    if not margs or not dargs:
+        raise RuntimeError("anchor moved: String() calls of merge/dedup")
+
+    def pipeline(path, call_re):
+        src = open(os.path.join(R, path)).read()
+        m = re.search(call_re, src)
+        if not m:
+            raise RuntimeError("anchor moved: %s %s" % (path, call_re))
+        j0 = src.index("(", m.start())
+        depth, j = 0, j0
+        for j in range(j0, len(src)):
+            if src[j] == "(":
+                depth += 1
+            elif src[j] == ")":
+                depth -= 1
+                if depth == 0:
+                    break
+        return re.findall(r"&routing\.(\w+)\{", src[j0:j])
+
+    pipes = {
+        "traffic_pipeline_src": pipeline("control/control_plane.go", r"routing\.NewNormalizedProgram\(routingA\.Rules"),
+        "dns_request_pipeline_src": pipeline("component/dns/dns.go", r"NewNormalizedRequestRoutingProgram\(dns\.Routing\.Request\.Rules"),
+        "dns_response_pipeline_src": pipeline("component/dns/dns.go", r"routing\.NewNormalizedProgram\(dns\.Routing\.Response\.Rules"),
+        "daedns_request_pipeline_src": pipeline("component/daedns/router.go", r"NewNormalizedRequestRoutingProgram\(dnsCfg\.Routing\.Request\.Rules"),
+    }
+    cs = vlib.cstr
+    pl = lambda l: clist([cpair(cs(a), cs(b)) for a, b in l])
+    txt = ("(* GENERATED by tools/c04.py from component/routing/optimizer.go, pkg/config_parser/section.go,\n"
+           "   control/control_plane.go, component/dns/dns.go, component/daedns/router.go - do not edit *)\n"
+           "From Coq Require Import List String.\nImport ListNotations.\n"
+           "Definition alias_fnames_src : list (string * string) := %s.\n"
+           "Definition alias_key_function_src : string := %s.\n"
+           "Definition alias_domain_keys_src : list (string * string) := %s.\n"
+           "Definition function_print_limit_src : nat := %d.\n"
+           "Definition function_print_ellipsis_src : string := %s.\n"
+           "Definition param_print_separator_src : string := %s.\n"
+           "Definition ip_sorted_functions_src : list string := %s.\n"
+           "Definition merge_outbound_string_args_src : list string := %s.\n"
+           "Definition dedup_param_string_args_src : list string := %s.\n"
+           % (pl(fn), cs(key_fn), pl(keys), limit, cs(ell), cs(sep), clist([cs(x) for x in ipf]),
+              clist([cs(x) for x in margs.groups()]), clist([cs(x) for x in dargs.groups()])))
+    for k, v in pipes.items():
+        txt += "Definition %s : list string := %s.\n" % (k, clist([cs(x) for x in v]))
+    vlib.write_if_changed(os.path.join(vlib.COQ, "gen", "C04_Extracted.v"), txt)
 
 # ------------------------------------------------------------------------------------------------
 # running
@@ -642,20 +790,20 @@ def candidates(case):
                 yield dict(case, rules=rules[:i] + [dict(r, out=(r["out"][0], []))] + rules[i + 1:])
 
 
-def shrink(sc, binary, case, want, rounds=12):
-    """greedy, batched: each round evaluates every single-step reduction in one harness + one coqc call and
-    keeps the first that still fails impl<>spec with the same leading matcher"""
+def shrink(sc, binary, case, want, rounds=40):
+    """greedy: try single-step reductions, keep the first that still fails (python-side re-computation of
+    the spec decision on the implementation's answers) with the same leading class; the result is
+    re-evaluated by the Coq check before it is reported"""
     cur = {k: v for k, v in case.items() if not k.startswith("_")}
     for rd in range(rounds):
-        cands = list(candidates(cur))[:60]
+        cands = list(candidates(cur))[:80]
         if not cands:
             break
-        evs, err = evaluate(sc, binary, cands, "shrink", isolate=(want == M_CRASH))
-        if err:
-            break
+        results, _ = run_impl(sc, binary, cands, "shrink", isolate=(want == M_CRASH))
         nxt = None
-        for c, ev in zip(cands, evs):
-            if ev["skip"] is None and spec_fails(ev) and want in classify(ev):
+        for c, r in zip(cands, results):
+            P = prepare(c, r)
+            if py_fails(P) and want in py_classes(P):
                 nxt = c
                 break
         if nxt is None:
@@ -700,10 +848,18 @@ def main(argv):
     out = vlib.Outcome(PID, args.tier, args.seed)
     rng = vlib.rng_for(args.seed, PID)
     quick = args.tier == "quick"
-    n_cases = 360 if quick else 6000
+    n_cases = int(os.environ.get("VERIF_C04_CASES", "0")) or (260 if quick else 6000)
     n_risky = 2 if quick else 12
 
+    try:
+        translate()
+        xlate_err = None
+    except Exception as e:  # anchor moved: the generated constants cannot be trusted any more
+        xlate_err = str(e)
     proof_ok, pinfo = vlib.proof_stage(out, PROPS, TARGETS)
+    if xlate_err:
+        proof_ok = False
+        pinfo["failed"] = {"stage": "translate", "error": xlate_err}
     cov = {"obligations": pinfo["obligations"], "discharged": pinfo["discharged"],
            "checker_cmd": "cd /verif/coq && coq_makefile -f _CoqProject -o Makefile && make -j16 " + " ".join(TARGETS) + " && coqc -Q . Dae C04_Props.v (Print Assumptions captured)",
            "theorems": pinfo.get("theorems", []), "print_assumptions": pinfo.get("assumptions", []),
@@ -733,10 +889,13 @@ def main(argv):
                     c = json.load(open(os.path.join(cdir, nm)))
                     c["rules"] = [dict(r, out=(r["out"][0], [tuple(p) for p in r["out"][1]]),
                                        funcs=[dict(f, params=[tuple(p) for p in f["params"]]) for f in r["funcs"]]) for r in c["rules"]]
+                    c["_corpus"] = nm
                     corpus.append(c)
+        corpus_risky = [c for c in corpus if c.get("risky")]
+        corpus = [c for c in corpus if not c.get("risky")]
         cases = corpus + [gen_case(rng, big=(not quick and i % 5 == 0)) for i in range(n_cases)]
-        risky = [gen_case(rng, flags={"p_crash": 0.5, "p_neg": 0.0, "p_empty": 0.0, "p_err": 0.0, "p_longout": 0.0, "p_collide": 0.0}) for _ in range(n_risky * 4)]
-        risky = [c for c in risky if case_atoms(c)[1] == "crash"][:n_risky]
+        risky = [gen_case(rng, flags={"p_crash": 0.5, "p_neg": 0.0, "p_empty": 0.0, "p_err": 0.0, "p_longout": 0.0, "p_collide": 0.0}) for _ in range(n_risky * 40)]
+        risky = corpus_risky + [c for c in risky if case_atoms(c)[1] == "crash"][:n_risky]
 
         all_ev = []
         fatal = None
@@ -756,7 +915,16 @@ def main(argv):
                 all_ev += evs
 
         def tie_idx():
-            return [i for i, ev in enumerate(all_ev) if any(c in TIE_CODES for (_, c) in ev["errors"]) and not ev["crashed"]]
+            # code 4 (matcher of the un-merged list <> spec) is explained when a condition lost all its values
+            # (class empty-geodata-expansion: the lowering drops such a condition); everything else is a broken tie
+            res = []
+            for i, ev in enumerate(all_ev):
+                if ev["crashed"] or ev["skip"] is not None:
+                    continue
+                codes = set(c for (_, c) in ev["errors"])
+                if codes & {1, 5, 6} or (4 in codes and not has_empty_expansion(ev["P"])):
+                    res.append(i)
+            return res
 
         def thm_idx():
             return [i for i, ev in enumerate(all_ev) if any(c in THM_CODES for (_, c) in ev["errors"])]
@@ -765,24 +933,40 @@ def main(argv):
         status_by_class = {}
 
         def report_spec_failures():
+            first = {}
             for i, ev in enumerate(all_ev):
-                if ev["skip"] is not None or not spec_fails(ev):
+                if ev["skip"] is not None or not spec_fails(ev) or i in done:
                     continue
+                done.add(i)
                 lead = classify(ev)[0]
                 if lead in reported:
                     reported[lead]["count"] += 1
-                    continue
-                small = shrink(sc, binary, cases[i], lead)
-                evs, err = evaluate(sc, binary, [small], "final", isolate=ev["crashed"])
-                sev = evs[0] if not err and evs and spec_fails(evs[0]) else ev
+                elif lead in first:
+                    first[lead][2] += 1
+                else:
+                    first[lead] = [i, shrink(sc, binary, cases[i], lead), 1]
+            if not first:
+                return
+            leads = list(first)
+            evs, err = evaluate(sc, binary, [first[l][1] for l in leads], "final", isolate=any(l == M_CRASH for l in leads))
+            for j, lead in enumerate(leads):
+                i, small, cnt = first[lead]
+                ev = all_ev[i]
+                sev = evs[j] if not err and evs and evs[j]["skip"] is None and spec_fails(evs[j]) else ev
                 scase = small if sev is not ev else cases[i]
                 ms = classify(sev)
-                st = out.violation(lead.split("/")[1], describe(scase, sev), WHAT[lead], matchers=ms)
-                reported[lead] = {"count": 1, "status": st, "matchers": ms, "minimal": describe(scase, sev)["config_text"]}
+                d = describe(scase, sev)
+                st = out.violation(lead.split("/")[1], d, WHAT[lead], matchers=ms)
+                reported[lead] = {"count": cnt, "status": st, "matchers": ms, "minimal": d["config_text"]}
 
+        done = set()
         if not fatal:
             report_spec_failures()
-        unsuppressed = any(v["status"] == "violation" for v in reported.values())
+        # a failing input of one of the named defect classes does not explain a broken tie elsewhere; only a
+        # new (unclassified) failing input does
+        def explained():
+            return any(v["status"] == "violation" and k == M_OTHER for k, v in reported.items())
+        unsuppressed = explained()
         widened = False
         if not fatal and (not proof_ok or tie_idx() or thm_idx()) and not unsuppressed:
             widened = True
@@ -794,7 +978,7 @@ def main(argv):
                 cases += extra[s:s + shard]
                 all_ev += evs
             report_spec_failures()
-            unsuppressed = any(v["status"] == "violation" for v in reported.values())
+            unsuppressed = explained()
         if fatal or ((not proof_ok or tie_idx() or thm_idx()) and not unsuppressed):
             what = {}
             if not proof_ok:
@@ -825,7 +1009,7 @@ def main(argv):
                  "mixed keys, aliases dip/dport/domain keys, geosite/geoip/ext references incl. attribute filters, empty and failing expansions, outbounds with marks/must/must_rules; "
                  "signature = (rules merged away, values removed by dedup, values added by geodata, negated-neighbour hazards, outbound-print hazards, dedup print collisions, model class); "
                  "non-trivial = distinct signatures in which at least one optimizer changed the list",
-            traces_validated_against_impl=len([ev for ev in live if not any(c in TIE_CODES for (_, c) in ev["errors"])]),
+            traces_validated_against_impl=len([ev for ev in live if not ev["crashed"] and not any(c in (1, 5, 6) for (_, c) in ev["errors"])]),
             comparisons="per stage (alias, dat, merge+sort, dedup): impl AST = model AST; per probe: impl decision (optimised list) = spec decision on the list as written; "
                         "impl decision (un-merged list) = spec; model decision = spec (code 3 if the partial theorems' hypotheses hold, 7 otherwise)",
             cases_by_kind=kinds, skipped=len(all_ev) - len(live),
